@@ -1279,6 +1279,9 @@ func genFCG(t *rapid.T, gfn func(*rapid.T) orb.Geometry) FColl {
 	return c
 }
 
+// drawCase draws one case of the main property (also used by TestPropConcurrent).
+func drawCase(t *rapid.T) Case { return genCase(t) }
+
 func genCase(t *rapid.T) Case {
 	// rapid's IntRange favours small values, so the composite kinds come first.
 	switch k := rapid.IntRange(0, 19).Draw(t, "kind"); {
@@ -1362,6 +1365,28 @@ func (tr *traits) kvs(kvs []KV) {
 func (tr *traits) feat(f Feat) {
 	tr.geom(f.Geom.V)
 	tr.kvs(f.Props)
+}
+
+// nonTrivialCase applies the package's non-trivial rule without counting anything.
+func nonTrivialCase(c Case) bool {
+	var tr traits
+	switch c.Kind {
+	case "geometry", "direct", "helper":
+		tr.geom(c.G.V)
+	case "feature":
+		if c.F != nil {
+			tr.feat(*c.F)
+		}
+	case "fc":
+		if c.FC != nil {
+			for _, f := range c.FC.Features {
+				tr.feat(f)
+			}
+			tr.foreign = len(c.FC.Extra) > 0
+			tr.kvs(c.FC.Extra)
+		}
+	}
+	return tr.nested || tr.container || tr.foreign || tr.exponent || tr.digits17
 }
 
 func classify(c Case) {
@@ -1458,8 +1483,8 @@ func assumptions() {
 
 func TestPropRoundTrip(t *testing.T) {
 	assumptions()
-	stats.Check(t, 120000, 2400000, func(rt *rapid.T) {
-		c := genCase(rt)
+	stats.Check(t, 80000, 1600000, func(rt *rapid.T) {
+		c := drawCase(rt)
 		classify(c)
 		stats.Try(rt, "TestPropRoundTrip", c, func() error { return checkCase(c) })
 	})
@@ -1633,6 +1658,28 @@ func TestReplay(t *testing.T) {
 	name, raw, ok := stats.Replaying()
 	if !ok {
 		t.Skip("no replay file")
+	}
+	if name == "TestPropConcurrent" {
+		var g []Item
+		if err := json.Unmarshal(raw, &g); err != nil {
+			t.Fatal(err)
+		}
+		for k := 0; k < 20; k++ {
+			if err := stats.ParallelErr(len(g), 100, func(i int) error { return g[i].check() }); err != nil {
+				t.Fatalf("replayed concurrent group still fails: %v", err)
+			}
+		}
+		return
+	}
+	if strings.Contains(name, "Independen") {
+		var c IndepCase
+		if err := json.Unmarshal(raw, &c); err != nil {
+			t.Fatal(err)
+		}
+		if err := stats.Guard(func() error { return checkIndep(c) }); err != nil {
+			t.Fatalf("replayed independence case still fails: %v", err)
+		}
+		return
 	}
 	if strings.Contains(name, "Sequence") {
 		var c SeqCase
